@@ -177,7 +177,24 @@ func c15Seq(tier string) []SeqJob {
 		a1 := []Op{{K: "wait"}}
 		spec := &SeqSpec{Cfg: Cfg{NumCounters: 16, MaxCost: 2, BufferItems: 2, SetBuf: sb, Metrics: true, TTLTick: 2, BucketSecs: 1}, MaxDepth: depth, Clients: 2,
 			Alphabet:  func(r *SeqRun) []Op { return a0 },
-			AlphabetT: func(r *SeqRun, t int) []Op { return a1 },
+			AlphabetT: func(r *SeqRun, t int) []Op {
+				// no call is STARTED while a Clear / Close is in progress (the property does not
+				// cover Close or Clear racing other calls); a Wait that is already blocked is the
+				// scenario of interest
+				open := false
+				for _, e := range r.Events {
+					switch e.Kind {
+					case evClearCall, evCloseCall:
+						open = true
+					case evClearRet, evCloseRet:
+						open = false
+					}
+				}
+				if open {
+					return nil
+				}
+				return a1
+			},
 			Oracle:    c15Oracle, Probe: c15Probe,
 			Terminal: func(r *SeqRun) bool { return r.Post.IsClosed && allIdle(r.Post.ClientState) && len(r.Hist) > 0 && closedTwice(r) },
 		}
